@@ -72,6 +72,8 @@ class _NumProxy:
     def extract(self, source):
         out = self._real.extract(source)
         self._rec['nums'].append((source, [(e.start, e.length, e.text) for e in out]))
+        if 'num_ids' in self._rec:
+            self._rec['num_ids'].append([id(e) for e in out])
         return out
 
     def __getattr__(self, name):
@@ -145,7 +147,7 @@ def record(ex, source):
     instrument()
     C = _S['C']
     rec = {'source': source, 'pm': [], 'sm': [], 'nums': [], 'finditer': [], 'nonunit': [], 'amb': None, 'masks': [],
-           'select': [], 'pre': None, 'half': [], 'raised': None, 'result': None}
+           'select': [], 'pre': None, 'half': [], 'raised': None, 'result': None, 'filter_raised': False}
     cfg = ex.config
     rec['conn'] = cfg.connector_token
     rec['mpl'] = ex.max_prefix_match_len
@@ -160,7 +162,13 @@ def record(ex, source):
 
     def fa(ers, text, *a, **k):
         before = list(ers)
-        out = orig_fa(ers, text, *a, **k)
+        try:
+            out = orig_fa(ers, text, *a, **k)
+        except Exception:
+            # `_filter_ambiguity` is regex-only and a parameter of the model; when it raises (it indexes `ers[0]` of a list
+            # it has just emptied) the call has no modelled counterpart
+            rec['filter_raised'] = True
+            raise
         ids = set(id(e) for e in out)
         rec['masks'].append(([_snap(e) for e in before], [id(e) in ids for e in before]))
         return out
@@ -253,6 +261,8 @@ def to_ops(rec):
             _lst(['%d:%s' % (s, cps(g)) for (s, g) in sep]), cps(rec['amb_term']), _mask(mask1), _mask(mask2), _mask(half)]
     ops = []
     flags = rec['select'][0]['flags'] if rec['select'] else None
+    if rec['filter_raised']:
+        return []
     if rec['raised']:
         impl = 'err:' + rec['raised']
         ops.append(('extract', '\t'.join(['ux.extract', 'full'] + base), impl))
@@ -270,7 +280,7 @@ def to_ops(rec):
 def compare(op, answer):
     """None if the model's answer agrees with the implementation, else a description"""
     kind, line, impl = op[0], op[1], op[2]
-    if kind == 'select' or impl.startswith('err:'):
+    if kind in ('select', 'merged') or impl.startswith('err:'):
         return None if answer == impl else 'implementation %s, model %s' % (impl, answer)
     parts = answer.split('#')
     if len(parts) != 3:
@@ -295,6 +305,8 @@ def show(s):
         f = it.split(':')
         if len(f) == 4:
             out.append((int(f[0]), int(f[1]), f[2], common.uncps(f[3])))
+        else:
+            out.append(it)
     return repr(out)
 
 
@@ -393,6 +405,17 @@ def run_chunk(tasks):
     for t in tasks:
         (mt, cul, k, fam, q) = t
         try:
+            if fam == 'merged':
+                from . import recog
+                bm = recog.get_model('NumberWithUnit', mt, cul).extractor_parser[k].extractor
+                mrec = record_merged(bm, QueryProcessor.preprocess(q, True))
+                ops = [] if mrec['inner_raised'] else [merged_op(mrec)]
+                res = mrec['result'] or []
+                out.append((t, ops, {'wf': True, 'raised': mrec['raised'], 'n': len(res), 'type_ok': True,
+                                     'merged_group': any(n > 1 for (_s, _l, _t, n) in res),
+                                     'pure_number_merged': len(mrec['final_nums']) > len(mrec['inner'] or []) and
+                                     any(n > 1 for (_s, _l, _t, n) in res)}, None))
+                continue
             ex = _extractor_for(mt, cul, k)
             rec = record(ex, QueryProcessor.preprocess(q, True))
             ops = to_ops(rec)
@@ -406,6 +429,7 @@ def run_chunk(tasks):
                 'suffix': any(rel == 0 for (_s, _l, _t, rel, _ty) in res),
                 'separate': any(rel is None for (_s, _l, _t, rel, _ty) in res),
                 'comma': fixed != rec['source'],
+                'filter_raised': rec['filter_raised'],
                 'select_conflict': any(e['out'] is not None and e['out'] != e['ers'] for e in rec['select']),
                 'filtered': any(not all(m) for (_b, m) in rec['masks']),
                 'nonunit': bool(rec['nonunit']),
@@ -417,3 +441,110 @@ def run_chunk(tasks):
         except Exception as e:  # noqa: BLE001
             out.append((t, [], {}, '%s: %s' % (type(e).__name__, e)))
     return out
+
+
+# ------------------------------------------------------------------ BaseMergedUnitExtractor (currency)
+
+class _ConnProxy:
+    """compound_unit_connector_regex: pass-through (the harness evaluates the same three-line test per gap itself)"""
+
+    def __init__(self, real):
+        self._real = real
+
+    def __getattr__(self, name):
+        return getattr(self._real, name)
+
+
+class _MergedCfgProxy:
+    def __init__(self, real, rec):
+        self.__dict__['_real'] = real
+        self.__dict__['_rec'] = rec
+
+    def __getattr__(self, name):
+        real, rec = self.__dict__['_real'], self.__dict__['_rec']
+        if name == 'unit_num_extractor':
+            return _NumProxy(real.unit_num_extractor, rec)
+        return getattr(real, name)
+
+
+def _item(e, types):
+    ER, C = _S['ER'], _S['C']
+    ty = e.type
+    if ty not in types:
+        types.append(ty)
+    non_int = isinstance(e.data, ER) and not str(e.data.data).startswith('Integer')
+    return (e.start, e.length, e.text, ty == C.SYS_NUM, types.index(ty), bool(non_int))
+
+
+def record_merged(bm, source):
+    """Run BaseMergedUnitExtractor.extract(source) (currency configuration) recorded: the inner unit extractor's answer,
+    the number extractor's answer inside __merge_pure_number, and the final groups."""
+    EX = _mod()
+    rec = {'source': source, 'nums': [], 'num_ids': [], 'inner': None, 'result': None, 'raised': None, 'types': [],
+           'inner_raised': False}
+    cfg = bm.config
+    orig_extract = EX.NumberWithUnitExtractor.extract
+
+    def inner(self, src):
+        try:
+            out = orig_extract(self, src)
+        except Exception:
+            rec['inner_raised'] = True
+            raise
+        rec['inner'] = [_item(e, rec['types']) for e in out]
+        rec['inner_ids'] = [id(e) for e in out]
+        return out
+
+    EX.NumberWithUnitExtractor.extract = inner
+    bm.config = _MergedCfgProxy(cfg, rec)
+    try:
+        out = bm.extract(source)
+        # members = number of results merged into the group. A merged group's data is [copy of the head, next member, ..]
+        # whose later elements are objects of the inner extractor's answer or of the number extractor's answer inside
+        # __merge_pure_number; a single result whose data is the [number, half] pair of expand_half_suffix is one member.
+        member_ids = set(rec.get('inner_ids', [])) | set(rec['num_ids'][-1] if rec['num_ids'] else [])
+        rec['result'] = [(e.start, e.length, e.text,
+                          len(e.data) if isinstance(e.data, list) and len(e.data) >= 2 and id(e.data[1]) in member_ids else 1)
+                         for e in out]
+    except Exception as e:  # noqa: BLE001
+        rec['raised'] = type(e).__name__
+    finally:
+        EX.NumberWithUnitExtractor.extract = orig_extract
+        bm.config = cfg
+    # gaps: the connector test of the code, evaluated for every (end of an item, start of an item) pair
+    C = _S['C']
+    rx = cfg.compound_unit_connector_regex
+    nums = rec['nums'][-1][1] if rec['nums'] else []
+    items = list(rec['inner'] or []) + [(s, l, t, True, 0, False) for (s, l, t) in nums]
+    gaps = []
+    for a in items:
+        for b in items:
+            bgn, end = a[0] + a[1], b[0]
+            mid = source[bgn: bgn + (end - bgn)].strip().lower()
+            if not mid:
+                continue
+            m = rx.match(mid)
+            if m and m.pos == 0 and len(m.string.split(' ')[0]) == len(mid):
+                gaps.append((bgn, end))
+    rec['gaps'] = sorted(set(gaps))
+    rec['final_nums'] = nums
+    return rec
+
+
+def merged_op(rec):
+    C = _S['C']
+    types = list(rec['types'])
+    if C.SYS_NUM not in types:
+        types.append(C.SYS_NUM)
+    nt = types.index(C.SYS_NUM)
+
+    def items(its):
+        return _lst(['%d:%d:%d:%d:%d:%s' % (s, l, 1 if isn else 0, ty, 1 if ni else 0, cps(t)) for (s, l, t, isn, ty, ni) in its])
+    nums = [(s, l, t, True, nt, False) for (s, l, t) in rec['final_nums']]
+    line = '\t'.join(['ux.merge', cps(rec['source']), items(rec['inner'] or []), items(nums),
+                      _lst(['%d:%d' % g for g in rec['gaps']])])
+    if rec['raised']:
+        impl = 'err:' + rec['raised']
+    else:
+        impl = _lst(['%d:%d:%d:%s' % (s, l, n, cps(t)) for (s, l, t, n) in rec['result']])
+    return ('merged', line, impl)
